@@ -6,6 +6,7 @@ use serde_json::Value;
 pub mod sys;
 pub mod prop;
 pub mod cycle;
+pub mod jarstore;
 pub mod c01;
 pub mod c02;
 pub mod c03;
